@@ -171,9 +171,15 @@ def run(ctx):
                 variant_votes["neither"] += 1
         lines_v = [mk(o, variant) for o in ops] + ["run makedata sideways asis - | 1 2 3", "frob"]
         nops += len(lines_v)
-        ctx.differential("alloc/free/handler trace of the real life-cycle functions vs the Lean protocol model (%s, variant %s)"
-                         % (name, variant), [drv], cmd, lines_v, keyf=lambda l: l if re.search(r" \d[\d,]* \|", l) else None)
         rc, outs, err = ctx.run_lines(cmd, lines_v)
+        # the harness output is computed once; the correspondence compares exactly these lines with the model's
+        ofile = mfile + ".out"
+        with open(ofile, "w") as f:
+            f.write("".join(o + "\n" for o in outs))
+        ctx.differential("alloc/free/handler trace of the real life-cycle functions vs the Lean protocol model (%s, variant %s)"
+                         % (name, variant), [drv], ["cat", ofile] if rc == 0 else cmd, lines_v,
+                         keyf=lambda l: l if re.search(r" \d[\d,]* \|", l) else None)
+        os.remove(ofile)
         if rc != 0 or len(outs) != len(lines_v):
             ctx.oracle_failure("c21:harness-crash", "c21 harness died (rc=%s)" % rc, {"model": name, "stderr": err[-300:]})
         else:
